@@ -127,6 +127,17 @@ CLAIMED = {
         "Trusted: Coq kernel; interruption points = re-openings of the file for writing (a crash inside one property conversion is "
         "outside the property); h5py/HDF5 not modelled; the abstraction function (h5py reader) in harness/impl_upgrade.py.",
         "DESIGN.md section 5 C18", TECH),
+    "C06": (
+        "Coq theorems: per axis, for every window [a, a+n) and every integer index (wrap-around, bounds) and every slice "
+        "(Python's slice.indices, any start/stop/step), DataView's coordinate transformation refuses exactly when NumPy refuses "
+        "on an array of length n and otherwise selects NumPy's selection shifted by a; negative steps are always refused; lifted "
+        "to every rank: for every well-formed window list and every index tuple (one ellipsis, padding) not longer than the rank, "
+        "view[expr] addresses exactly the parent cells NumPy's expr addresses in the window. Tie: arrays holding their own flat "
+        "offsets, reads/assignments through DataArray and through get_slice views compared with NumPy on an in-memory copy, with "
+        "the model and with the Gallina specification. Known finding: surplus index items on a view are ignored.",
+        "Trusted: Coq kernel; h5py's selection semantics for normalised tuples (exercised); negative window starts are outside the "
+        "domain; text arrays and calibration are C01/C15.",
+        "DESIGN.md section 5 C06", TECH),
 }
 
 PENDING_REASON = ("check not built yet in this revision (work in progress: the property is meant to be decided by Coq "
